@@ -45,7 +45,7 @@ def run(prop, tier, seed, t0):
                 'mutations: bit/byte flips, truncation, splicing, FIELD-AWARE (R\'s parser gives the positions of descriptor, window/dictID/FCS, block headers, literals-section header, Huffman description, sequence header/modes/tables), random, random after a valid header, trailing bytes, unchanged; '
                 'each input through one-shot, reused DCtx, usingDict/DDict/loadDictionary/refPrefix with true and arbitrary dictionaries, streaming (random segmentation, window limits, stableOut, multi-DDict), tables of 1..300 DDicts with random dictIDs under refMultipleDDicts and frames naming present/absent IDs, buffer-less, block-level decode, all inspectors, skippable reader, in-place decode; exact-size guard-paged source and destination, capacities 0/tiny/exact/large/around the literal-buffer placement edge of a block; under ASan+UBSan, natively with guard pages, and a share under valgrind memcheck (definedness). '
                 'distinct non-trivial = distinct (origin, mutation kind) + (entry, outcome/error) cells',
-        'inputs_under_valgrind_memcheck': vg_inputs, 'multi_ddict_tables': res.stat('multi_ddict_tables'), 'multi_ddict_lookups': res.stat('multi_ddict_lookups'), 'multi_ddict_present_id_decoded': res.stat('multi_ddict_present_id_decoded'), 'multi_ddict_present_id_refused': res.stat('multi_ddict_present_id_refused'), 'multi_ddict_table_max_entries': res.maxes.get('multi_ddict_table_max_entries', 0), 'mutation_cells': res.cells.get('mutation', {}), 'one_shot_outcomes': core.topcells(res, 'outcome', 30), 'corpus_items': list(res.cells.get('corpus_size', {}).keys()),
+        'inputs_under_valgrind_memcheck': vg_inputs, 'static_dctx_runs': res.stat('static_dctx_runs'), 'multi_ddict_tables': res.stat('multi_ddict_tables'), 'multi_ddict_lookups': res.stat('multi_ddict_lookups'), 'multi_ddict_present_id_decoded': res.stat('multi_ddict_present_id_decoded'), 'multi_ddict_present_id_refused': res.stat('multi_ddict_present_id_refused'), 'multi_ddict_table_max_entries': res.maxes.get('multi_ddict_table_max_entries', 0), 'mutation_cells': res.cells.get('mutation', {}), 'one_shot_outcomes': core.topcells(res, 'outcome', 30), 'corpus_items': list(res.cells.get('corpus_size', {}).keys()),
     }
     assumptions = ['clean sanitizer runs are not memory safety: non-adjacent / intra-object overflows and reuse of freed memory after quarantine are invisible; guard pages see adjacent accesses by the assembly loops only',
                    'CPU budget 5 s + 80 us/KiB per input (all entry points) exceeded twice = hang', 'coverage-guided (libFuzzer) stage of the design not built', 'no 32-bit build']
